@@ -55,7 +55,7 @@ package mpt
 //@ ensures[len] len(result) == 33 && fresh(result)
 //@ ensures[val] result[0] == storage.DataMPT && forall(i, 0, 32, result[1+i] == mptKey[i])
 
-//@ prop C11
+//@ prop C10,C11
 //@ import storage github.com/nspcc-dev/neo-go/pkg/core/storage
 
 //@ spec le32s(b []byte, p int) int = b[p] + b[p+1]*256 + b[p+2]*65536 + b[p+3]*16777216
